@@ -23,6 +23,33 @@ CHECKS = {
         'Every explored path witness is re-run natively and must agree (translation validation of the bytes intrinsics).',
    design='4/C18', technique='symbolic execution of rustc MIR over symbolic byte arrays, SMT (z3), exhaustive path enumeration within byte bounds, native replay of every path witness',
    note=TRUST + '; bytes 1.6 Buf/BufMut contracts in vf/lib_bytes.py; bound: byte strings up to the stated length, record lists up to the stated size.'),
+ 'C20': dict(category='model_checking',
+   text='update_height is executed from its lowered-coroutine MIR for all (stored, new) u32 pairs: afterwards stored = max, the mutex is free, result is Some(new) iff raised '
+        '(one inductive step, covers histories of any length together with the static fact, read from the MIR call graph, that no other body writes through the height guard); '
+        'new_block / poll_height tasks race on the shared height under every interleaving at await granularity (monotonicity checked after every step, final value = max of everything told); '
+        'the real poll_forever select!-loop is executed against a timer/RPC model: every iteration waits exactly 60 s, polls unconditionally, and a failed poll does not leave the loop.',
+   design='4/C20', technique='symbolic execution of lowered async state machines from MIR under an explicit-state scheduler, SMT-decided data',
+   note=TRUST + '; tokio Mutex/mpsc/sleep/select contracts (vf/lib_tokio.py); bounds: 2 notifications + 1 poll (quick), loop 2 iterations.'),
+ 'C15': dict(category='model_checking',
+   text='The real PayPaymentProvider::wait_payment coroutine (async-trait box, FuturesUnordered, filter_map closure) runs against the node model with 0..2 (quick) / 0..3 (thorough) parts in '
+        'arbitrary initial states; parts resolve at every possible point relative to the linearisation points of the list and wait RPCs, with every tolerated waitsendpay code. '
+        'At the instant the future completes: Some(p) only if a part is complete with p = pre(H); None only if no part is pending or complete; Err only after an RPC error. '
+        'All interleavings within the bounds are enumerated; counterexamples are replayed against the real provider over a fake lightning-rpc socket.',
+   design='4/C15', technique='symbolic execution of the async state machine from MIR + exhaustive environment interleavings (explicit-state, SMT for data)',
+   note=TRUST + '; node model of listsendpays/waitsendpay (vf/env_node.py); bound: number of parts.'),
+ 'C16': dict(category='model_checking',
+   text='The real pay wrapper (both xpay settings) runs against the node model: every pay outcome (complete, pending, failed, failed+warning, RPC error) x parts created by the command '
+        '(<=1 quick / <=2 thorough) x one pre-existing part in any state x every later resolution order. Ok(p) only with the preimage of a complete part, Err only when no part is pending or complete; '
+        'the PayRequest forwarded carries exactly bolt11, amount, maxfee, maxdelay, retry_for (symbolic over their full ranges).',
+   design='4/C16', technique='symbolic execution of the async state machine from MIR + exhaustive environment interleavings (explicit-state, SMT for data)',
+   note=TRUST + '; node model of pay/listsendpays/waitsendpay; bound: parts per command, one pre-existing part; RPC faults inside wait_payment only in the thorough tier.'),
+ 'C03': dict(category='model_checking',
+   text='Full stack from MIR (handle_htlc, check_htlc, PaymentState, payment_lifecycle with its select!, resolve, ClnDatastore, PayPaymentProvider, BlockWatcher) as tasks under the scheduler with '
+        'symbolic HTLC amounts / declared totals / forward amounts / invoice amount (present, absent, present + amount TLV) / policy. At every pay RPC call the solver decides: '
+        'sum of the amounts of the HTLCs registered for the hash >= amount to deliver + base + floor(amount*ppm/1e6); maxfee <= held - amount; amount argument None iff the invoice has an amount '
+        'else exactly the declared amount; and no counted HTLC is answered before pay returns. All schedules of <=2 (quick) / <=3 (thorough) HTLCs.',
+   design='4/C03', technique='symbolic execution of the real async stack from MIR under an explicit-state scheduler with partial-order reduction; SMT decides data; native replay over a fake node',
+   note=TRUST + '; node + tokio contracts; products abstracted by an uninterpreted function during search and re-validated exactly on any counterexample; single HTLC amount <= money supply.'),
 }
 
 NOT_YET = 'harness not built yet in this session (see DESIGN.md build order); will be claimed once its check exists'
